@@ -1,7 +1,7 @@
 """Per-property claim texts for MANIFEST.json (kept next to the obligations registry)."""
 
 ENGINES = [
-    dict(name="jsym", path="jsym/", serves_properties=["C01", "C02", "C03", "C04", "C05", "C06", "C07", "C09", "C12", "C17", "C18", "C20"],
+    dict(name="jsym", path="jsym/", serves_properties=["C01", "C02", "C03", "C04", "C05", "C06", "C07", "C09", "C12", "C15", "C17", "C18", "C20"],
          kind_free_text="own concolic executor on z3: proxy objects for ints/reals/bools, every branch decided by the solver, replay-based DFS to exhaustion, prefix-sharded over 16 processes; real JADE code runs natively"),
 ]
 
@@ -80,5 +80,11 @@ CLAIMS["C17"] = dict(
     note="Strings are chosen from a stated vocabulary, not symbolic (pydantic and json are C code). JSON files only (TOML excluded by the property). Only the generic_command extension.",
     technique="bounded symbolic execution of the real code with z3 (jsym): solver-chosen configurations, symbolic integer runtimes")
 
+CLAIMS["C15"] = dict(
+    text="K-stage: real PipelineManager.submit_next_stage/_submit_next_stage on a real pipeline.json for every combination of 1-4 stages, persisted stage 1..n+1, requested stage 0..n+2, return code in {None,0,1,-1,255}, submission result 0/1: a stage is submitted only for persisted+1 (or 1 at the start), exactly once, with that stage's configuration and output directory; stage number, per-stage return codes and is_complete afterwards are as specified; every other request is refused with pipeline.json byte-identical. "
+    "H-pipeline: whole pipelines of 1-2 (3) stages x 2 jobs through `jade pipeline submit` and the real submit-next-stage invoked by the completing submitter, all schedules of batches/job exits: nothing of stage k+1 is handed to the HPC or started before every job of stage k exited, each transition triggered exactly once, recorded return codes equal the completing submitter's status, pipeline complete only at the end, a duplicate submit-next-stage is refused.",
+    note=_HN + " JobSubmitter.run_submit_jobs and create_config_from_file are recorders in K-stage only.",
+    technique="bounded symbolic execution of the real code with z3 (jsym): solver-chosen stage numbers, return codes and schedules")
+
 _TODO = "check not built yet in this session (planned in DESIGN.md section 6); not claimed until it exists"
-NOT_APPLICABLE = {p: _TODO for p in ["C08", "C10", "C11", "C13", "C14", "C15", "C16", "C19"]}
+NOT_APPLICABLE = {p: _TODO for p in ["C08", "C10", "C11", "C13", "C14", "C16", "C19"]}
